@@ -157,6 +157,25 @@ def check_v2_guards(model, rep):
     need(f, 'add: transpose-order', ok, 'later terms are transposed to the index order of the first term', 'the transposition to the first term\'s index order changed')
     ok = any(isinstance(s, ast.AugAssign) and src(s.target) == 'summed_indices' and isinstance(s.op, ast.BitOr) and src(s.value) == 'term_summed_indices' for s in find_stmts(f.body, lambda s: isinstance(s, ast.AugAssign)))
     need(f, 'add: summed-union', ok, 'summed indices of all terms are united', 'summed indices of later terms are dropped: an index summed in one term could be reused outside')
+    # ... on EVERY path through the per-term loop body (a shortcut `continue` in front of it loses them for that term)
+    tl = [l for l in loops if 'unaligned[1:]' in src(l.iter)]
+    if len(tl) != 1:
+        raise AnalysisError('parse_expression: the loop over the later terms was not found')
+    fake = ast.FunctionDef(name='_term_loop_body', args=ast.arguments(posonlyargs=[], args=[], kwonlyargs=[], kw_defaults=[], defaults=[]), body=tl[0].body, decorator_list=[], lineno=tl[0].lineno)
+
+    def on_stmt(s, st):
+        evs = []
+        if isinstance(s, ast.AugAssign) and src(s.target) == 'summed_indices' and isinstance(s.op, ast.BitOr):
+            evs.append(Event('UNION', s))
+        if isinstance(s, ast.Expr) and src(s.value).startswith('aligned.append('):
+            evs.append(Event('APPEND', s))
+        return evs
+    paths = [p for p in PathEnumerator(fake, on_stmt=on_stmt, unroll=1).paths() if p.end != 'raise']
+    # `continue` ends the iteration of the enclosing loop: the enumerator reports it as an error outside a loop, so wrap
+    bad = [p for p in paths if not any(e.kind == 'UNION' for e in p.events)]
+    bad2 = [p for p in paths if not any(e.kind == 'APPEND' for e in p.events)]
+    need(f, 'add: every-term-accounted', not bad and not bad2 and bool(paths), f'all {len(paths)} non-raising paths through the per-term loop unite the summed indices and append the term',
+         'a path through the per-term loop skips `summed_indices |= term_summed_indices` or `aligned.append(...)`: indices summed inside that term are forgotten (or the term is dropped)')
     # trace
     f = fn('_trace')
     facts, calls, n = _facts_before_call(f, lambda c: src(c.func) == 'self.array.trace')
